@@ -82,7 +82,7 @@ class RWorld(mosaik.World):
             self.loop.active = False
 
 
-def run(repo=None, verbose=False):
+def run(repo=None, verbose=False, only=None):
     """returns dict(runs=, steps=, input_checks=, alarms=[...], failures=[...], skipped=[...])"""
     global REF
     repo = repo or os.environ.get('VK_REPO', '/repo')
@@ -96,6 +96,8 @@ def run(repo=None, verbose=False):
         files = sorted(glob.glob(os.path.join(repo, 'tests/scenarios/test_*.py')))
         for f in files:
             name = os.path.basename(f)[:-3]
+            if only and name != only:
+                continue
             src = open(f).read()
             if 'Remote' in src or 'rt_factor' in src:
                 out['skipped'].append(name)
